@@ -195,8 +195,9 @@ class BufWorld(World):
                     ctx2.__exit__(None, None, None)
                 except (BufferException, OSError):
                     pass
-            self.dead = True
             self.frozen = {}
+            self._aftermath(s)
+            self.dead = True
             for h in self.handles:
                 h.attached = False
             self.events["exit_" + kind] += 1
@@ -207,6 +208,74 @@ class BufWorld(World):
         if kind == "cls" and self.cls_depth.get(key, 0) == 0:
             for r in list(getattr(self, "ghosts", {})):
                 self.ghosts[r].discard(key)
+
+    write_probe_after_fault = True
+
+    def _aftermath(self, s):
+        """Every context has been left, one of the exits reported an I/O failure. Whatever the
+        collections held is lost - but the failure must not linger: (1) a later buffered session
+        that only READS serves the file's content and writes nothing; (2) no context is open, so a
+        mutation is in the backend when the call returns (and nothing stays buffered)."""
+        from .plain import kind_of
+        for i in self.roots():
+            h = self.handles[i]
+            res = self.res[h.res]
+            try:
+                F = res.read()
+            except ValueError:
+                continue        # the injected failure itself damaged the file (non-atomic mode)
+            if F is not ABSENT and kind_of(F) != h.kind:
+                continue
+            raw0 = (res.raw(), res.stat() if hasattr(res, "stat") else None)
+            try:
+                with h.real.buffered:
+                    v = h.real()
+            except Exception as e:  # noqa: BLE001
+                raise Mismatch("read_only_session_after_failed_exit_raised", step=s,
+                               error=f"{type(e).__name__}: {str(e)[:160]}")
+            raw1 = (res.raw(), res.stat() if hasattr(res, "stat") else None)
+            if raw1 != raw0:
+                raise Mismatch("read_only_session_after_failed_exit_wrote", step=s, res=h.res,
+                               before=repr(raw0)[:160], after=repr(raw1)[:160])
+            if F is not ABSENT and v != F:
+                raise Mismatch("read_only_session_after_failed_exit_stale", step=s, got=v, expected=F)
+            self.events["aftermath_read_session"] += 1
+            if not self.write_probe_after_fault:
+                continue
+            exp = copy.deepcopy(F) if F is not ABSENT else ({} if h.kind == "dict" else [])
+            try:
+                if h.kind == "dict":
+                    h.real["zz_after_fault"] = 1
+                    exp["zz_after_fault"] = 1
+                else:
+                    h.real.append("zz_after_fault")
+                    exp.append("zz_after_fault")
+            except Exception as e:  # noqa: BLE001
+                raise Mismatch("write_after_failed_exit_raised", step=s,
+                               error=f"{type(e).__name__}: {str(e)[:160]}")
+            try:
+                got = res.read()
+            except ValueError:
+                got = "<unparsable>"
+            if F is ABSENT:
+                # a missing file never resets what the object holds: only the probe itself is known
+                ok = (isinstance(got, dict) and got.get("zz_after_fault") == 1) or \
+                     (isinstance(got, list) and got[-1:] == ["zz_after_fault"])
+            else:
+                ok = got == exp
+            if not ok:
+                raise Mismatch("write_after_failed_exit_not_in_backend", step=s, got=got, expected=exp)
+            cls = type(h.real)
+            if hasattr(cls, "get_current_buffer_size") and cls.get_current_buffer_size() != 0:
+                raise Mismatch("buffer_not_empty_outside_any_context", step=s, cls=cls.__name__,
+                               size=cls.get_current_buffer_size())
+            self.events["aftermath_write_probe"] += 1
+
+    def _s_setcap(self, s):
+        roots = self.roots()
+        if not roots or not self.ci.buffered:
+            return False
+        type(self.handles[roots[0]].real).set_buffer_capacity(s["n"])
 
     def _s_op(self, s):
         i = s["h"]
